@@ -325,6 +325,14 @@ func (f *LocalFile) AddDirective(name string, args ...string) {
 	if len(f.comments()) == 0 {
 		b.WriteByte('\n')
 	}
+	// The delimiter directive is read by the scanner from the first line
+	// of the file only. Hence, other directives are added right after it.
+	if _, ok := directive(string(f.b), directiveDelimiter, directivePrefixSQL); ok && name != directiveDelimiter {
+		if i := bytes.IndexByte(f.b, '\n'); i != -1 {
+			f.b = append(append(append([]byte(nil), f.b[:i+1]...), b.String()...), f.b[i+1:]...)
+			return
+		}
+	}
 	f.b = append([]byte(b.String()), f.b...)
 }
 
